@@ -279,7 +279,8 @@ def contains(eng, container, item, st, node):
         st.assume(z3.Or(z3.And(r == -1, z3.ForAll([jj], z3.Not(occurs_abs(base, lo, hi, lit, jj)), patterns=[T.sch(base, jj)])),
                         z3.And(r >= 0, occurs_at(eng, s, lit, r))))
         return r != -1
-    if isinstance(container, PList):
+    if isinstance(container, (PList, PTuple)):
+        # x in (a, b, c): equal to one of the listed elements
         return z3.Or([eng.equal(item, x, st) for x in container.items] + [z3.BoolVal(False)])
     if isinstance(container, ZV) and isinstance(container.shape, TDict):
         return container.shape.has(container.term, box(item, container.shape.k))
